@@ -900,7 +900,7 @@ Definition step_post (f : decompressor) (e : ierr) (startInputSize startBitsLen 
       | EFuel => (f, Some RStuck)
       | _ =>
         if isError e || (ierr_eqb e EEndInput && eof f) then
-          match step_discard f with
+          match step_discard_at (held_nonneg f) f with
           | None => (f, Some RStuck)
           | Some (Some be, f) => (f, Some (rres_of_berror be))
           | Some (None, f) =>
@@ -1019,7 +1019,7 @@ Proof.
   clearbody f0.
   assert (Hmain :
     (if isError e || (ierr_eqb e EEndInput && eof f0) then
-          match step_discard f0 with
+          match step_discard_at (held_nonneg f0) f0 with
           | None => (f0, Some RStuck)
           | Some (Some be, f) => (f, Some (rres_of_berror be))
           | Some (None, f) =>
@@ -1040,7 +1040,7 @@ Proof.
           else (f, ret)) = (f', None) -> dinv f').
   { clear H. intros H.
     destruct (isError e || (ierr_eqb e EEndInput && eof f0)).
-    - destruct (step_discard f0) as [[[be|] f1]|] eqn:E.
+    - destruct (step_discard_at (held_nonneg f0) f0) as [[[be|] f1]|] eqn:E.
       + apply pair_inj in H. destruct H as (_ & H). discriminate.
       + destruct (ierr_eqb e EEndInput); apply pair_inj in H; destruct H as (_ & H); discriminate.
       + apply pair_inj in H. destruct H as (_ & H). discriminate.
